@@ -546,3 +546,49 @@ def lower9(ctx) -> List[Ob]:
             continue
         out.append(bad("LOWER-9", cg.qualname, key, where, f"a source block is emitted as {txt[:60]}: not all of its statements exactly once"))
     return out
+
+
+@rule("LOWER-10", 1, "the value of a return statement may be absent: the generated assignment substitutes None for it")
+def lower10(ctx) -> List[Ob]:
+    out: List[Ob] = []
+    cg = _codegen(ctx)
+    parm, subj = _arm_for(ctx, cg, "PythonASTBlock")
+    if parm is None:
+        raise AnalysisError("codegen: no PythonASTBlock arm")
+    cfg = ctx.cfg(cg)
+    # the arm guarded by `type(<tree>[-1]) is ast.Return`
+    for st in A.walk_no_nested(ast.Module(parm.body, [])):
+        if not isinstance(st, ast.If):
+            continue
+        for arm in chain_arms(st):
+            if arm.test is None or "ast.Return" not in A.unparse(arm.test):
+                continue
+            assigns = [c for c in A.walk_no_nested(ast.Module(arm.body, [])) if isinstance(c, ast.Call) and (A.dotted(c.func) or "") == "ast.Assign"]
+            for c in assigns:
+                val = c.args[1] if len(c.args) > 1 else kw(c, "value")
+                key = "return value of a bare return"
+                where = ctx.where(cg, c)
+                if val is None:
+                    out.append(unresolved("LOWER-10", cg.qualname, key, where, "assignment without a value"))
+                    continue
+
+                def nullable_ok(e: ast.AST) -> bool:
+                    # `X if v is None else v` / `v if v is not None else X` with X a constructed node
+                    if isinstance(e, ast.IfExp) and isinstance(e.test, ast.Compare) and isinstance(e.test.comparators[0], ast.Constant) and e.test.comparators[0].value is None:
+                        return True
+                    if isinstance(e, ast.BoolOp) and isinstance(e.op, ast.Or):
+                        return True
+                    if isinstance(e, ast.Call) and (A.dotted(e.func) or "").startswith("ast."):
+                        return True
+                    if isinstance(e, ast.Name):
+                        defs = [d for d in cfg.reaching_defs(c, e.id) if d.stmt is not None]
+                        return bool(defs) and all(isinstance(d.stmt, ast.Assign) and nullable_ok(d.stmt.value) for d in defs)
+                    return False
+
+                if nullable_ok(val):
+                    out.append(ok("LOWER-10", cg.qualname, key, where, "a missing value is replaced by a constructed None constant"))
+                else:
+                    out.append(bad("LOWER-10", cg.qualname, key, where, f"the assignment's value is {A.unparse(val)[:50]}, which is None for a bare 'return': the generated tree has Assign(value=None) and cannot be unparsed or compiled"))
+    if not out:
+        out.append(unresolved("LOWER-10", cg.qualname, "return value of a bare return", ctx.where(cg), "no return-handling arm found"))
+    return out
